@@ -170,6 +170,22 @@ def main(replay=None):
             names = [n for n, d, t in entries] + [b"missing.sqf", b"config.cpp"]
             for nm in rng.sample(names, min(len(names), 2)):
                 add("wellformed", fb, nm, expected(props, entries, nm))
+        # free sections: header entries whose name is made of '?' only (what a writer leaves behind when an entry is rewritten in place) are
+        # no entries - but each still owns its bytes of the data area, wherever it stands in the table
+        for i in range(600 if thorough else 120):
+            props, entries = rand_archive(rng)
+            entries = [e for e in entries if e[0] != b""]
+            for _ in range(rng.choice([1, 1, 2, 3])):
+                fn_ = b"?" * rng.choice([1, 1, 3, 8])
+                fd = bytes(rng.randint(0, 255) for _ in range(rng.choice([0, 1, 7, 64, 300])))
+                entries.insert(rng.randint(0, len(entries)), (fn_, fd, 0))
+            if not any(set(n) != {63} for n, d, t in entries):
+                entries.insert(rng.randint(0, len(entries)), (plain_name(rng), b"payload" + bytes(rng.randint(0, 255) for _ in range(9)), 0))
+            fb = pack(props, entries)
+            visible = [e for e in entries if set(e[0]) != {63}]
+            names = [n for n, d, t in visible] + [b"?", b"???"]
+            for nm in rng.sample(names, min(len(names), 2)):
+                add("free-sections", fb, nm, expected(props, visible, nm))
         # every truncation point and every single-byte corruption of small archives
         nsmall = 40 if thorough else 6
         for i in range(nsmall):
